@@ -19,7 +19,7 @@ def run(ctx):
     rng = random.Random(ctx.seed)
     ctx.assumptions += [
         "values are abstracted for TLC: small integers, interned strings/bytes/user ids, timestamps as ranks in a fixed table; an empty uint32 set and 'no value' are the same thing on the wire",
-        "a call is 'never returning' when its goroutine stays parked on a lock/condition with no other request in flight (stack signature recorded); a call that neither returns nor parks within 240 s is inconclusive",
+        "a call is 'never returning' when its goroutine stays parked on a lock/condition with no other request in flight (stack signature recorded); a call that neither returns nor parks within 120 s is retried once on a fresh swamp; if it runs away again it is recorded as not returning",
         "one swamp per history; requests carry one swamp each; malformed requests, index reads and events belong to C26/C07/C19",
     ]
     binary = ctx.go_build("swampkv")
